@@ -964,6 +964,11 @@ overload_loop:
 		}
 		clear(genericTypes)
 
+		// an overload that was declared with the wrong number of parameters (and reported) never matches
+		if len(overload.Parameters) != len(operands) {
+			continue
+		}
+
 		operator_overload := &ast.OperatorOverload{
 			Decl: overload,
 			Args: make(map[string]ast.Expression, len(overload.Parameters)),
@@ -1024,6 +1029,11 @@ func (t *Typechecker) findOverloadCast(expr *ast.CastExpr, operand operand) *ast
 			return nil
 		}
 		clear(genericTypes)
+
+		// an overload that was declared with the wrong number of parameters (and reported) never matches
+		if len(overload.Parameters) != 1 {
+			continue
+		}
 
 		operator_overload := &ast.OperatorOverload{
 			Decl: overload,
